@@ -232,9 +232,9 @@ PROPS["C14"] = dict(
 PROPS["C06"] = dict(
     title="FRI accepts every polynomial below the bound; folding is polynomial folding",
     level="model_checking",
-    technique="source-to-SMT: the parsed fri_formula executed over Z[t]/(t^8+1) (z3 polynomial identity, all polynomials/challenges/coset points), group and constant lemmas by concrete big-integer evaluation, Horner identity",
-    obligations=[e2("C06")],
-    assumptions=E2_ASSUMPTIONS,
+    technique="source-to-SMT: the parsed fri_formula executed over Z[t]/(t^8+1) (z3 polynomial identity, all polynomials/challenges/coset points), group and constant lemmas by concrete big-integer evaluation, Horner identity; symbolic execution of the real compute_next_layer / compute_coset_elements against the coset index geometry for every query set of the enumerated shapes (z3 integers, native replay)",
+    obligations=[e2("C06"), e2("C06S")],
+    assumptions=E2S_ASSUMPTIONS,
     outside=["end-to-end fri_commit+fri_verify completeness over all step lists of 2..15 layers against a coefficient-space prover (concrete-run technique); small-shape completeness is decided under C07 (C07S obligations) when present",
              "Merkle completeness: C04/C05"],
 )
